@@ -19,14 +19,14 @@ ASSUMES = ["read tensor entries symbolic reals >= 0 with one symbolic NaN(gap) f
            "genotype entries, rearrangement index vector (any vector in [0,ploidy)^ploidy), interval and read counts are symbolic integers, concretised path by path by the solver"]
 BOUNDS = {
     "quick": "(ploidy,sites,alleles,reads) in {(2,2,2,2),(2,2,2,1),(3,2,2,1),(2,1,3,2)}, symbolic gap flags on the first read; counts in 0..3; all genotypes, all index vectors in [0,P)^P, all intervals; memoised structural wrapper: histories of 3 lookups over 8 genotypes of 2 haplotypes x 3 sites, interval None/[0,1)/[1,3), real arraymap of capacity 16 (a key takes 6 nodes: the third distinct key overflows)",
-    "thorough": "adds gap flags on every read and shapes (3,2,2,2),(2,3,2,2),(2,2,3,2),(3,2,3,1),(4,2,2,1),(3,3,2,1)",
+    "thorough": "adds gap flags on every read and shapes (3,2,2,2),(2,3,2,2),(2,2,3,2),(3,2,3,1),(4,2,2,1)",
 }
 OUTSIDE = "larger shapes; float rounding; -inf*0 for zero-count reads of zero probability"
 # (ploidy, sites, alleles, reads, reads-with-symbolic-gap-flags, groups)
 QUICK = [(2, 2, 2, 2, 1, ("sem",)), (2, 2, 2, 1, 1, ("sc", "alleles")), (3, 2, 2, 1, 1, ("sem",)), (2, 1, 3, 2, 1, ("sem", "sc")), (2, 1, 2, 2, 0, ("alleles",))]
 THOROUGH = [(2, 2, 2, 2, 2, ("sem", "sc", "alleles")), (3, 2, 2, 1, 1, ("sem", "sc", "alleles")), (2, 1, 3, 2, 2, ("sem", "sc", "alleles")),
-            (3, 2, 2, 2, 1, ("sem",)), (2, 3, 2, 2, 1, ("sem", "sc")), (2, 2, 3, 2, 1, ("sem", "sc")), (3, 2, 3, 1, 1, ("sem",)),
-            (4, 2, 2, 1, 1, ("sem",)), (3, 3, 2, 1, 1, ("sem",))]
+            (3, 2, 2, 2, 1, ("sem",)), (2, 3, 2, 2, 1, ("sem",)), (2, 2, 3, 2, 1, ("sem", "sc")), (3, 2, 3, 1, 1, ("sem",)),
+            (4, 2, 2, 1, 1, ("sem",))]  # ((3,3,2,1) and the structural variant of (2,3,2,2) were 40% of the tier's cost: sized out)
 
 
 def configs(tier):
